@@ -100,6 +100,13 @@ fn mk_deque<T>(items: Vec<T>) -> std::collections::VecDeque<T> {
 
 enum Cont<T> { Slice(Box<[T]>), V(Vec<T>), D(VecDeque<T>), B(BTreeMap<usize, T>), H(HashMap<usize, T>) }
 
+fn clone_cont<T: Clone>(c: &Cont<T>) -> Cont<T> {
+    match c {
+        Cont::Slice(x) => Cont::Slice(x.clone()), Cont::V(x) => Cont::V(x.clone()), Cont::D(x) => Cont::D(x.clone()),
+        Cont::B(x) => Cont::B(x.clone()), Cont::H(x) => Cont::H(x.clone()),
+    }
+}
+
 fn mk<T>(cont: i128, items: Vec<T>) -> Cont<T> {
     match cont {
         0 => Cont::Slice(items.into_boxed_slice()),
@@ -135,10 +142,14 @@ pub fn run(args: &[i128]) -> Vec<i128> {
     match kind {
         0 => {
             let items: Vec<Assumption> = (0..n).map(|k| Assumption::new(args[3 + 2 * k] as u64, "a".to_string(), afn(args[4 + 2 * k]))).collect();
-            let c = mk(cont, items);
+            let mut c = mk(cont, items);
             for op in args[3 + 2 * n..].chunks(10) {
                 let data: Vec<f64> = op[2..10].iter().map(|z| *z as f64).collect();
-                if op[0] == 0 {
+                if op[0] == 2 {
+                    // from now on work on a CLONE of the collection (an assumption's verification state travels with it)
+                    c = clone_cont(&c);
+                    out.push(0);
+                } else if op[0] == 0 {
                     with_cont!(&c, x => x.verify_all_assumptions(&data));
                     out.push(0);
                 } else {
